@@ -234,6 +234,11 @@ pub fn run_sys<O: Observer + 'static>(
         let new_msgs: Vec<String> = rx.try_iter().collect();
         let row = Row { iter, pc: cpu.verif_pc(), sp: cpu.er[7], ccr: cpu.verif_ccr(), state: cpu.verif_state_sum() as u64, npend: cpu.verif_pending().len() as u32 };
         let prev = s.last;
+        trace_fold(((row.pc as u64) << 32) | row.sp as u64);
+        trace_fold(((row.ccr as u64) << 56) ^ row.state ^ ((row.npend as u64) << 40));
+        for m in &new_msgs {
+            trace_fold_bytes(m.as_bytes());
+        }
         if let Err(f) = s.obs.boundary(cpu, &s.guest, &row, prev.as_ref(), &new_msgs) {
             s.failure = Some(f);
             return Err(abort("oracle"));
@@ -298,6 +303,15 @@ pub fn run_sys<O: Observer + 'static>(
         shared.msgs.push((it.saturating_sub(1), m));
     }
     let fin = FinalState { pc: sim.cpu.verif_pc(), er: sim.cpu.er, ccr: sim.cpu.verif_ccr(), state_sum: sim.cpu.verif_state_sum() as u64, pending: sim.cpu.verif_pending() };
+    trace_fold(fin.pc as u64 ^ (fin.state_sum << 24));
+    for r in fin.er {
+        trace_fold(r as u64);
+    }
+    trace_fold_bytes(outcome.class().as_bytes());
+    if let Outcome::Err(e) = &outcome {
+        trace_fold_bytes(e.as_bytes());
+    }
+    trace_fold(crate::harness::des::digest_state(&sim.cpu, &shared.guest.dram_windows, &[]));
     let clock = cstats.borrow().clone();
     (SysRun { outcome, iters: shared.iter, rows: shared.rows, msgs: shared.msgs, fired: shared.fired, fin, failure, clock, sim }, shared.obs)
 }
